@@ -1,9 +1,9 @@
 SPECIFICATION Spec
 CONSTANTS
   MinWays = 0
-  MaxWays = 4
-  NKeys = 3
-  Snapshots = FALSE
+  MaxWays = 3
+  NKeys = 1
+  Snapshots = TRUE
 VIEW View
 ACTION_CONSTRAINT Emit
 INVARIANT TypeOK
